@@ -326,9 +326,12 @@ struct Exec {
     // --- flags
     uint8_t fl = got.trace_flags().flags();
     bool want_sampled = sc.decision == Decision::RECORD_AND_SAMPLE;
-    if (((fl & 1) != 0) != want_sampled)
-      c.fail(want_sampled ? "C05:sampled-flag:clear-although-sampled" : (parent.IsValid() && parent.IsSampled() ? "C05:sampled-flag:inherited-from-parent" : "C05:sampled-flag:set-although-not-sampled"),
-             where + vf::sfmt("flags %02x but the sampler decided ", fl) + dec + "; parent " + (parent.IsValid() ? show(parent) : std::string("none")));
+    if (((fl & 1) != 0) != want_sampled) {
+      // report() returns (instead of ending the execution) when the signature is a listed known finding; the model
+      // continues from the real context either way
+      c.report(want_sampled ? "C05:sampled-flag:clear-although-sampled" : (parent.IsValid() && parent.IsSampled() ? "C05:sampled-flag:inherited-from-parent" : "C05:sampled-flag:set-although-not-sampled"),
+               where + vf::sfmt("flags %02x but the sampler decided ", fl) + dec + "; parent " + (parent.IsValid() ? show(parent) : std::string("none")));
+    }
     CK((fl & ~0x01) == 0, "C05:flags-outside-w3c-level-1", where + vf::sfmt("flags %02x contain bits outside W3C trace-context level 1 (only 01 is defined); parent ", fl) + (parent.IsValid() ? show(parent) : std::string("none")));
     // --- trace state: the sampler's if given, else the parent's
     std::string want_ts = sc.has_ts ? sc.ts : (parent.IsValid() ? ts_header(parent) : std::string());
